@@ -1,5 +1,5 @@
 import NbioVerif.Properties.C01
-import NbioVerif.Lemmas.ConnEdge
+import NbioVerif.Lemmas.ConnDrain
 /-!
 # C04 Flush liveness (safety core + progress)
 
@@ -70,6 +70,32 @@ theorem c04_et_edge_counterexample_early :
     s.closed = false ∧ s.reg = true ∧ s.wl ≠ [] ∧ s.edgeDue = false ∧ s.early = true := by
   decide
 
+/-- **C04 (the backlog drains without any further call).** From any reachable quiet state — open,
+    registered, no async connect in progress, the poller not inside an event of this connection — in which
+    the kernel keeps making room (every reported EPOLLOUT finds room for `N > 0` bytes, then is full again)
+    and no error event occurs: after at most `backlog` rounds of `[kernel reports EPOLLOUT, poller handles the
+    event]` the queue is empty, the connection is still open and the peer has received every accepted byte —
+    and each round's report IS delivered (LT / ONESHOT: the interest set was re-armed; ET: a report is due).
+    No Write / Writev / Sendfile / Close occurs in those rounds. All modes, any `N > 0`. -/
+theorem c04_drains (g : Cfg) (ops : List Op) (N : Nat) (hN : 0 < N) :
+    let s := run g init ops
+    Quiet s →
+    let t := run g s (List.replicate (backlog s.wl) (round N)).flatten
+    t.closed = false ∧ t.wl = [] ∧ t.wire = t.accepted ∧ t.accepted = s.accepted := by
+  intro s q t
+  have h4 : Inv4 g s := inv4_run g ops init (inv4_init g)
+  obtain ⟨r1, r2, r3, r4⟩ := drains_aux g N hN (backlog s.wl) s h4 q (Nat.le_refl _)
+  have hint := r1.d.integ r2.closed
+  rw [r3] at hint
+  exact ⟨r2.closed, r3, by simpa [pending] using hint, r4⟩
+
+/-- the quiet states are what every sequential use leaves behind, e.g. after registration and any calls -/
+example :
+    let g : Cfg := ⟨.oneshot, 0, 10, fun i => UInt8.ofNat i⟩
+    let s := run g init [.write [1, 2] [.wrote 1], .register, .sendfile 3 2 []]
+    Quiet s ∧ backlog s.wl = 3 ∧ (run g s (List.replicate 3 (round 2)).flatten).wire = [1, 2, 3, 4] := by
+  refine ⟨⟨by decide, by decide, by decide, by decide, by decide, by decide, by decide⟩, by decide, by decide⟩
+
 /-- **C04 (the conn's belief is right).** `isWAdded` holds exactly when a backlog exists (or an async
     connect is still in progress), and once registered the kernel's interest set agrees with it
     (LT, ONESHOT; ET always asks for EPOLLOUT). -/
@@ -119,54 +145,6 @@ theorem c04_flush_monotone (g : Cfg) (s : S) (ks : List KAns) : backlog (flush g
 theorem c04_progress (g : Cfg) (s : S) (n0 : Nat) (ks : List KAns) (hr : Reach g s) (hc : s.closed = false)
     (hw : s.wl ≠ []) (hn0 : 0 < n0) : backlog (flush g s (.wrote n0 :: ks)).wl < backlog s.wl :=
   flush_progress g s n0 ks hc (reach_inv hr).1.pos hw hn0
-
-/-- flush looks at the queue and the closed flag only -/
-theorem flush_backlog_congr (g : Cfg) (s t : S) (ks : List KAns) (h1 : t.closed = s.closed) (h3 : t.wl = s.wl) :
-    backlog (flush g t ks).wl = backlog (flush g s ks).wl := by
-  have e : ∀ fuel (a b : S) (ks : List KAns), a.wl = b.wl →
-      (flushLoop g fuel a ks).wl.map Item.todo = (flushLoop g fuel b ks).wl.map Item.todo := by
-    intro fuel
-    induction fuel with
-    | zero => intro a b ks h; simp [flushLoop, h]
-    | succ fuel ih =>
-      intro a b ks h
-      unfold flushLoop
-      rw [← h]
-      split
-      · rw [wl_cResetRead, wl_cResetRead]; show a.wl.map Item.todo = b.wl.map Item.todo; rw [h]
-      · simp only
-        split
-        · exact ih a b ks h
-        split
-        · rw [h]
-        · rw [h]
-        · exact ih a b _ h
-        · simp [closeNow]
-        · split
-          · exact ih a b _ h
-          split
-          · exact ih _ _ _ rfl
-          · exact ih _ _ _ rfl
-      · split
-        · exact ih a b ks h
-        split
-        · rw [h]
-        · rw [h]
-        · exact ih a b _ h
-        · simp [closeNow]
-        · simp only
-          split
-          · exact ih a b _ h
-          split
-          · exact ih _ _ _ rfl
-          · exact ih _ _ _ rfl
-  unfold flush
-  rw [h1, h3]
-  split
-  · rw [h3]
-  split
-  · rw [h3]
-  · simp only [backlog]; rw [e _ t s ks h3]
 
 /-- **C04 (the delivered event reaches flush).** In a reachable open state with a backlog and EPOLLOUT
     armed (no async connect in progress), a reported EPOLLOUT is delivered and handled by `flush`
